@@ -21,7 +21,8 @@ ASSUMPTIONS = []
 
 def plan(tier):
     q = tier == 'quick'
-    return [('wf', 320 if q else 6000, {}), ('coincident', 120 if q else 2000, {}), ('fidelity', 150 if q else 3000, {})]
+    return [('wf', 320 if q else 6000, {}), ('coincident', 120 if q else 2000, {}), ('fidelity', 150 if q else 3000, {}),
+            ('flagged-unused', 4 if q else 20, {})]
 
 
 def search_plan(tier, disagreements):
@@ -103,10 +104,24 @@ def run_case(stream, seed, ctx, params):
     rng = random.Random(seed)
     if stream == 'fidelity':
         return fidelity_case(seed, rng, ctx)
+    if stream == 'flagged-unused':
+        # the configuration of the open finding F2c (= F2b seen from C08), built on purpose: a flagged surface card
+        # that bounds no converted cell
+        d = G.build_flat_deck(rng, macro_p=0.0, tr_p=0.0, imp0_p=0.0)
+        nid = max(s_.id for s_ in d.surfs) + 1
+        d.surfs.append(D.Surf(nid, 'px', [rng.choice(G.HALF) + 0.125], bc=rng.choice(['*', '+'])))
+        return run_deck(ctx, stream, d, [], rng, npts=40)
     if stream == 'wf':
         m = rng.random()
         if m < 0.35:
             d = G.build_flat_deck(rng, macro_p=0.3, tr_p=0.1, imp0_p=0.3)
+            # a reflecting / white flag on one or two elementary surfaces: the file then has a BOUNDARY_CONDITION
+            # block whose declared count and references are part of the predicate
+            plain = [s_ for s_ in d.surfs if s_.mn not in G.MACRO_NFACETS and s_.mn != 'arb'
+                     and not (s_.mn[0] == 'k' and len(s_.ps) in (3, 5)) and s_.mn not in ('x', 'y', 'z')]
+            if plain and rng.random() < 0.4:
+                for s_ in rng.sample(plain, min(len(plain), rng.randint(1, 2))):
+                    s_.bc = rng.choice(['*', '+'])
         elif m < 0.7:
             d = U.build_universe_deck(rng, depth=rng.randint(1, 3), macro_p=0.2, tr_p=0.1, fill_tr_p=0.6, trcl_p=0.3)
         else:
